@@ -938,6 +938,11 @@ class _Env:
         if isinstance(o, (str, tuple, list, dict, range)):
             try:
                 return o[k]
+            except (KeyError, IndexError) as ex:
+                if getattr(self.f, 'faithful_try', False) and is_known(k):
+                    # the interpreted program would raise this very exception: its handlers may catch it
+                    raise _Raise(type(ex).__name__, f'{self.m.relpath}:{getattr(e, "lineno", 0)}')
+                raise _Abort(f'subscript failed: {ex!r}')
             except Exception as ex:
                 raise _Abort(f'subscript failed: {ex!r}')
         if isinstance(o, AObj) and hasattr(o, '__getitem__'):
